@@ -33,7 +33,8 @@
 //	           accept; F: in the same write as the downstream proxy's 200 head)
 //	    phase  c<writes>[h|f]/t<writes>[h|f]   both sides run concurrently, then a checkpoint
 //	           writes = comma separated <size>[x<count>][~<pause_ms>]
-//	           a write entry I = stay idle for 2.5 x the grace period of this run
+//	           a write entry I = stay idle for 2.5 x the grace period of this run, L = stay idle for
+//	           11 s (a long-lived tunnel: longer than any 10 s set-up deadline someone may leave armed)
 //	           a side may also be the single letter S: it streams (32 KiB writes) until a write
 //	           fails or the grace period is over, while the other side aborts (a) in that phase
 //	           h = CloseWrite after the writes, f = full Close after the writes,
@@ -115,7 +116,7 @@ import (
 
 type wr struct {
 	size, count, pause int
-	idle               bool
+	idle, long         bool
 }
 
 type side struct {
@@ -166,6 +167,10 @@ func parseSide(s string) (side, error) {
 	for _, p := range strings.Split(s, ",") {
 		if p == "I" {
 			sd.ws = append(sd.ws, wr{idle: true})
+			continue
+		}
+		if p == "L" {
+			sd.ws = append(sd.ws, wr{idle: true, long: true})
 			continue
 		}
 		w := wr{count: 1}
@@ -459,7 +464,11 @@ func writeAll(conn net.Conn, e *end, data []byte, off int, sd side, grace time.D
 	for _, w := range sd.ws {
 		if w.idle {
 			atomic.StoreInt32(&e.idling, 1)
-			time.Sleep(grace * 5 / 2)
+			if w.long {
+				time.Sleep(11 * time.Second)
+			} else {
+				time.Sleep(grace * 5 / 2)
+			}
 			atomic.StoreInt32(&e.idling, 0)
 			continue
 		}
